@@ -7,6 +7,9 @@ public class ByteBuf {
     private void ens(int n) { if (w + n > a.length) a = java.util.Arrays.copyOf(a, Math.max(a.length * 2, w + n)); }
     private void chk(int n) { if (r + n > w) throw new IndexOutOfBoundsException("readerIndex(" + r + ") + length(" + n + ") exceeds writerIndex(" + w + ")"); }
     public int writerIndex() { return w; } public int readerIndex() { return r; } public int readableBytes() { return w - r; }
+    public boolean isReadable() { return w > r; } public boolean isReadable(int n) { return w - r >= n; } public int capacity() { return a.length; }
+    public short readUnsignedByte() { return (short) (rBE(1) & 0xff); } public int readUnsignedShort() { return (int) (rBE(2) & 0xffff); } public long readUnsignedInt() { return rBE(4) & 0xffffffffL; }
+    public int readUnsignedShortLE() { return (int) (rLE(2) & 0xffff); } public long readUnsignedIntLE() { return rLE(4) & 0xffffffffL; }
     private void setBE(int i, long v, int n) { for (int k = 0; k < n; k++) a[i + k] = (byte) (v >>> (8 * (n - 1 - k))); }
     private void setLE(int i, long v, int n) { for (int k = 0; k < n; k++) a[i + k] = (byte) (v >>> (8 * k)); }
     private long getBE(int i, int n) { long v = 0; for (int k = 0; k < n; k++) v = (v << 8) | (a[i + k] & 0xff); return v; }
